@@ -5,6 +5,7 @@ import Driver.HuffD
 import Driver.LzhD
 import Driver.VolD
 import Driver.ResD
+import Driver.MapD
 /-!
 # op2model — line-protocol driver for the executable model
 
@@ -21,6 +22,7 @@ def handlers : List (String → List String → Option String) :=
   handleLzh ::
   handleVol ::
   handleRes ::
+  handleMap ::
   []
 
 def dispatch (line : String) : String :=
